@@ -179,6 +179,10 @@ func cmdCheck(args []string) {
 			cc.Funcs = append(cc.Funcs, k+" (callee contract applied during this check)")
 		}
 	}
+	// property-specific functions verified under synthesised contracts
+	if fn, ok := propPreFuncs[*prop]; ok {
+		results = append(results, fn(cc)...)
+	}
 	solveAll(results, *timeout, 16)
 	for _, r := range results {
 		if r.Unsupported != "" {
@@ -208,6 +212,9 @@ func cmdCheck(args []string) {
 	}
 	finish(cc, t0, seed)
 }
+
+// propPreFuncs: per property, functions verified under contracts synthesised by the check itself.
+var propPreFuncs = map[string]func(cc *CheckCtx) []*FnResult{}
 
 func hasProp(ps []string, p string) bool {
 	for _, x := range ps {
